@@ -68,6 +68,17 @@ Section Spec.
            | None => false
            end).
 
+  (* "the authorization URL always carries the configured client, redirect URI, scopes and
+     that state": a URL asked from rp.AuthURL(s, rp) without further options, at any time *)
+  Definition url_core_ok (s base : string) (ps : params) : bool :=
+    String.eqb base (c_auth cfg)
+    && opt_is (plookup "response_type" ps) "code"
+    && opt_is (plookup "client_id" ps) (c_client cfg)
+    && (is_empty (c_redirect cfg) || opt_is (plookup "redirect_uri" ps) (c_redirect cfg))
+    && (match c_scopes cfg with [] => true
+        | _ => opt_is (plookup "scope" ps) (String.concat " " (c_scopes cfg)) end)
+    && String.eqb (form ps "state") s.
+
   (* the login whose state cookie is in the jar: the most recent redirect that set exactly that cookie *)
   Definition redeemed_login (j : jar) (lg : logins) : option (list cookie_cmd * params) :=
     match jar_get state_name j with
@@ -109,6 +120,7 @@ Section Spec.
     | OCallback q _ _, EvCb h reqs _ => cb_ok hon j lg q h reqs
     | OSet _ _, EvNone => true
     | ODel _, EvNone => true
+    | OApi _, EvProbe base ps => url_core_ok probe_state base ps
     | _, _ => false
     end.
 
@@ -195,6 +207,7 @@ Definition event_eqb (a b : event) : bool :=
   match a, b with
   | EvAuth c u p, EvAuth c' u' p' => list_eqb ccmd_eqb c c' && String.eqb u u' && params_eqb p p'
   | EvCb h r c, EvCb h' r' c' => handler_eqb h h' && list_eqb tokreq_eqb r r' && list_eqb ccmd_eqb c c'
+  | EvProbe u p, EvProbe u' p' => String.eqb u u' && params_eqb p p'
   | EvNone, EvNone => true
   | EvOther, EvOther => true
   | _, _ => false
